@@ -79,7 +79,14 @@ class FullEngine(Engine):
             c = self.cond(e.test, st)
             if c is True: return self.expr(e.body, st, hint)
             if c is False: return self.expr(e.orelse, st, hint)
-            a = self.expr(e.body, st, hint); b = self.expr(e.orelse, st, hint)
+            # each arm is evaluated under its guard (its safety obligations may rely on it); facts learnt there stay guarded
+            def arm(x, g):
+                sub = st.clone(); sub.pc.append(g); v = self.expr(x, sub, hint)
+                extra = sub.pc[len(st.pc) + 1:]
+                if extra: st.pc.append(Implies(g, And(*extra)))
+                st.store = sub.store; st.types = sub.types
+                return v
+            a = arm(e.body, c); b = arm(e.orelse, Not(c))
             if isinstance(a, PV) and isinstance(b, PV) and a.t == b.t: return PV(a.t, If(c, a.term, b.term))
             ta = self.type_of(a)
             return self.from_term(st, ta, If(c, self.term(st, a), self.term(st, b)), frozen=True)
